@@ -105,5 +105,18 @@ def run(case):
     return res
 
 
-PROFILES = {"solve": Profile("solve", cases, run, quick=5000, thorough=120000, timeout=120)}
+ENUM_PROF = sc.make_prof(zero_resid=0.2, diag=1.0, maxfuns=[12, 20, 30, 45], print_progress=0.0, route_bias=0.0, rhoend_exps=[1, 1, 2])
+
+
+def run_enum(case):
+    """Budget enumeration: the scenario re-run with maxfun = 1..nf; flag/message truthfulness wherever the budget ends."""
+    res = CaseResult()
+    nf, ref = sc.budget_enumeration(case, cl.c10, res)
+    res.classes += case["tags"]
+    res.nontrivial = bool(nf > case["npt"] + 2)
+    return res
+
+
+PROFILES = {"solve": Profile("solve", cases, run, quick=5000, thorough=120000, timeout=120),
+            "budget-enum": Profile("budget-enum", lambda: sc.scenarios(ENUM_PROF), run_enum, quick=120, thorough=4000, timeout=600)}
 KNOWN = {}
